@@ -63,7 +63,7 @@ def spawn_workers(prop, seed, first, count, nworkers, wall, tier, tmp, hashseed)
 def merge(procs, hard_timeout):
     agg = {'runs': 0, 'ops': 0, 'digests': {}, 'probes': {}, 'faults': {}, 'transitions': set(), 'klass': {},
            'nontrivial_keys': set(), 'violations': [], 'harness_errors': [], 'refused': 0, 'samples': [],
-           'stopped_early': False}
+           'stopped_early': False, 'slowest': [0.0, -1]}
     t_end = time.monotonic() + hard_timeout
     for p, out in procs:
         try:
@@ -89,6 +89,8 @@ def merge(procs, hard_timeout):
         agg['harness_errors'] += w['harness_errors']
         agg['samples'] += w['samples']
         agg['stopped_early'] |= w['stopped_early']
+        if w.get('slowest', [0])[0] > agg['slowest'][0]:
+            agg['slowest'] = w['slowest']
     agg['violations'].sort(key=lambda v: v['run'])
     agg['samples'].sort(key=lambda s: s['run'])
     return agg
@@ -293,7 +295,7 @@ def main(argv=None):
                 'refused_by_system_under_test': agg['refused'],
                 'simulated_time': 'n/a (the system under test reads no clock)',
                 'components': getattr(engine, 'COMPONENTS', {}),
-                'workers': nworkers, 'worker_hashseed': a.hashseed,
+                'workers': nworkers, 'worker_hashseed': a.hashseed, 'slowest_run_s': agg['slowest'][0], 'slowest_run_index': agg['slowest'][1],
                 'stopped_at_wall_budget': agg['stopped_early'],
                 'known_findings_hit': {k: n for k, (e, n) in known_hits.items()},
                 'violation_signatures': reported,
@@ -308,8 +310,8 @@ def main(argv=None):
         with open(os.path.join(VERIF, 'evidence', prop + '.json'), 'w') as f:
             json.dump(ev, f, indent=1, sort_keys=True)
     stuck = [p for p in getattr(engine, 'PROBES', []) if not agg['probes'].get(p)]
-    print('runs=%d nontrivial=%d transitions=%d ops=%d faults=%s refused=%d wall=%.1fs' % (
-        agg['runs'], len(agg['nontrivial_keys']), len(agg['transitions']), agg['ops'], agg['faults'], agg['refused'], wall))
+    print('runs=%d nontrivial=%d transitions=%d ops=%d faults=%s refused=%d wall=%.1fs slowest_run=%.1fs(#%d)' % (
+        agg['runs'], len(agg['nontrivial_keys']), len(agg['transitions']), agg['ops'], agg['faults'], agg['refused'], wall, agg['slowest'][0], agg['slowest'][1]))
     if stuck:
         print('self-assessment: probes stuck at zero: ' + ', '.join(stuck))
     for l in lines:
